@@ -296,3 +296,20 @@ def finish(prop, tier, results, t0, level_text, trusted, seed=0):
     print("%s %s: %d rule instances over %d rules, %d violation(s), %d known finding(s), %.1fs" % (
         prop, tier, len(merged.instances), obligations, len(unknown), len(known), time.time() - t0))
     return 1 if unknown else 0
+
+
+def dep_features(crate_name, repo=None):
+    """resolved cargo features of a dependency (cargo metadata, offline, all features of the root)"""
+    repo = repo or REPO
+    env = dict(os.environ)
+    env["CARGO_NET_OFFLINE"] = "true"
+    p = subprocess.run(["cargo", "metadata", "--offline", "--format-version", "1", "--all-features"],
+                       cwd=repo, env=env, stdout=subprocess.PIPE, stderr=subprocess.PIPE, text=True)
+    if p.returncode != 0:
+        raise RuntimeError("cargo metadata failed: " + p.stderr[-500:])
+    m = json.loads(p.stdout)
+    out = []
+    for n in m["resolve"]["nodes"]:
+        if ("#%s@" % crate_name) in n["id"] or ("/%s#" % crate_name) in n["id"]:
+            out.append(sorted(n["features"]))
+    return out
